@@ -119,13 +119,13 @@ fn gen_layer_block(src: &mut Src, f: &mut Flags) -> LefLayerGeometries {
                 LefShape::Polygon(None, v)
             }
             1 => {
-                let n = src.usize_in(3, 6);
+                let n = if src.prob(1, 10) { src.usize_in(7, 20) } else { src.usize_in(3, 6) };
                 LefShape::Polygon(if src.prob(1, 6) { Some(LefMask::new(LefDecimal::new(2, 0))) } else { None }, (0..n).map(|_| gen_pt(src, &mut f.fine)).collect())
             }
             _ => {
                 needs_width = true;
                 // a path may consist of a single point (a width-sized dot)
-                let n = src.usize_in(1, 5);
+                let n = if src.prob(1, 10) { src.usize_in(7, 20) } else { src.usize_in(1, 5) };
                 LefShape::Path(None, (0..n).map(|_| gen_pt(src, &mut f.fine)).collect())
             }
         };
@@ -362,6 +362,10 @@ fn oracle(lib: &LefLibrary, f: &Flags, ctx: &mut Ctx) -> Result<(), String> {
             if f.fine {
                 ctx.label("non-integral coordinate: error reported");
                 ctx.nontrivial(hash_of(&format!("{:?}", lib)));
+                // asked again, the importer gives the same answer (an error is not forgotten by the next call)
+                if let Ok(_) = raw::lef::LefImporter::import(lib, None) {
+                    return Err(format!("import of a library with a coordinate that is not a whole number of raw units failed ({}), then succeeded when called again on the same library", msg));
+                }
                 return Ok(());
             }
             if f.unsupported {
